@@ -86,7 +86,9 @@ Bases == <<B1, B2, B3, B4, B5>>
 \* positions (1-based) of the bytes that start a compact length prefix or an option/enum tag: every
 \* byte is a candidate for SetByte anyway; CorruptLength rewrites a prefix with a hostile length
 HostileLens == { <<252>>, <<253, 255>>, <<254, 255, 255, 255>>, <<3, 255, 255, 255, 255>>, <<3, 0, 0, 0, 64>>,
-                 <<1, 0>>, <<2, 0, 0, 0>>, <<3, 1, 0, 0, 0>>, <<7, 1, 0, 0, 0, 0>>, <<5, 1>> }
+                 <<1, 0>>, <<2, 0, 0, 0>>, <<3, 1, 0, 0, 0>>, <<7, 1, 0, 0, 0, 0>>, <<5, 1>>,
+                 \* CANONICAL big-integer compacts above u32::MAX (what a wider integer type would accept): 2^32, 2^32+5, 2^40, 2^56, 2^64
+                 <<7, 0, 0, 0, 0, 1>>, <<7, 5, 0, 0, 0, 1>>, <<11, 0, 0, 0, 0, 0, 1>>, <<19, 0, 0, 0, 0, 0, 0, 0, 1>>, <<23, 0, 0, 0, 0, 0, 0, 0, 0, 1>> }
 ByteVals == {0, 1, 2, 3, 63, 64, 127, 128, 192, 252, 253, 254, 255}
 Positions == {p \in 1..Len(bytes) : Stride = 1 \/ p % Stride = nf % Stride \/ p <= 12}
 
